@@ -451,3 +451,14 @@ package datastore
 //@   modifies nothing
 //@   ensures by_priority_then_age: result == (intentsUpdates[i].priority < intentsUpdates[j].priority ||
 //@            (intentsUpdates[i].priority == intentsUpdates[j].priority && intentsUpdates[i].ts < intentsUpdates[j].ts))
+
+// ---------------------------------------------------------------------------
+// C05: a rollback the validation rejects has restored nothing; the caller (Cancel, the timer) is told so
+//@ pred noIntentErrors(rsp) = allstr(k, present(rsp.Intents, k) && rsp.Intents[k] != nil ==> len(rsp.Intents[k].Errors) == 0)
+//@ func (*DatastoreRollbackAdapter).TransactionRollback
+//@   props C05
+//@   nosafety only the verdict handed to the transaction manager is claimed
+//@   requires dra != nil && dra.d != nil && dra.d.config != nil && dra.d.cacheClient != nil && inv_Transaction(transaction)
+//@   ensures a_rejected_rollback_is_an_error [C05]: r1 == nil ==> callres(lowlevelTransactionSet, 0, 1) == nil && r0 == callres(lowlevelTransactionSet, 0, 0) && (r0 != nil ==> noIntentErrors(r0))
+//@   ensures a_failed_rollback_is_an_error [C05]: callres(lowlevelTransactionSet, 0, 1) != nil ==> r1 != nil
+//@   loop 0 invariant $map == callres(lowlevelTransactionSet, 0, 0).GetIntents() && allstr(k, $visited[k] && $map[k] != nil ==> len($map[k].Errors) == 0)
